@@ -164,3 +164,6 @@ package lib
 //@ lib func strings.HasPrefix(s string, prefix string) (b bool)
 //@   pure
 //@   ensures b == SubAt(s, 0, prefix)
+
+//@ lib func bytes.NewBufferString(s string) (b *bytes.Buffer)
+//@   ensures b != nil && fresh(b) && b.$n >= 0
